@@ -334,6 +334,13 @@ func (symbol *nonSetCompositeEntitySymbol) GetChain() []EntitySymbol {
 	return symbol.chain
 }
 
+// getChain makes this a compositeEntitySymbol, so that when a non-set composite (fk.field) is the tail of a longer
+// dotted symbol (set.fk.field) its elements are merged into the new chain, instead of the whole composite being
+// evaluated against the raw, type-tagged cursor key
+func (symbol *nonSetCompositeEntitySymbol) getChain() []EntitySymbol {
+	return symbol.chain
+}
+
 func (symbol *nonSetCompositeEntitySymbol) GetStore() Store {
 	return symbol.chain[0].GetStore()
 }
